@@ -14,16 +14,17 @@ func init() { register("C11", checkC11) }
 
 // dispatchInfo collects the constructs of Router.ServeHTTP shared by the C08, C11, C12 and C13 rules.
 type dispatchInfo struct {
-	fn        *ssa.Function
-	ctx       ssa.Value
-	ctxDef    ssa.Instruction
-	mainLook  *ssa.Call // the non-lazy lookup
-	lazyLooks []*ssa.Call
-	lazySite  map[*ssa.Call]*ssa.Call // a lazy lookup that sits in a helper called from ServeHTTP -> that call
+	fn         *ssa.Function
+	ctx        ssa.Value
+	ctxDef     ssa.Instruction
+	mainLook   *ssa.Call // the non-lazy lookup
+	lazyLooks  []*ssa.Call
+	lazySite   map[*ssa.Call]*ssa.Call // a lazy lookup that sits in a helper called from ServeHTTP -> that call
+	lazySiteAt []*ssa.Call             // aligned with lazyLooks: the call in ServeHTTP that stands for the lookup (nil: in ServeHTTP itself); one helper may be called for both loops
 	// handler call sites
 	routeCalls   []*ssa.Call // through Route.hall
 	specialCalls map[*types.Var][]*ssa.Call
-	otherCalls   []*ssa.Call // dynamic calls receiving the context through some other value
+	otherCalls   []*ssa.Call          // dynamic calls receiving the context through some other value
 	scopeOfField map[*types.Var]int64 // from New: Router field -> scope constant used when wrapping it
 	baseOfField  map[*types.Var]string
 	state        map[ssa.Instruction]ctxState
@@ -169,11 +170,18 @@ func analyseDispatch(w *World) *dispatchInfo {
 				return
 			}
 			if lz, isConst := constBool(c2.Call.Args[len(c2.Call.Args)-1]); isConst && lz {
+				for len(d.lazySiteAt) < len(d.lazyLooks) {
+					d.lazySiteAt = append(d.lazySiteAt, nil)
+				}
 				d.lazyLooks = append(d.lazyLooks, c2)
+				d.lazySiteAt = append(d.lazySiteAt, site)
 				d.lazySite[c2] = site
 			}
 		})
 	})
+	for len(d.lazySiteAt) < len(d.lazyLooks) {
+		d.lazySiteAt = append(d.lazySiteAt, nil)
+	}
 	d.cf.Run(d.fn, d.ctx, d.ctxDef, func(in ssa.Instruction, st ctxState) { d.state[in] = st.clone() })
 	return d
 }
@@ -366,7 +374,7 @@ func checkAllowLoops(w *World, r *Report, d *dispatchInfo) {
 	for i, c := range d.lazyLooks {
 		a := c.Call.Args
 		name := fmt.Sprintf("lazy lookup #%d", i+1)
-		site := d.lazySite[c] // nil: the loop is in ServeHTTP itself
+		site := d.lazySiteAt[i] // nil: the loop is in ServeHTTP itself
 		subst := func(v ssa.Value) ssa.Value {
 			if site == nil {
 				return v
@@ -381,7 +389,7 @@ func checkAllowLoops(w *World, r *Report, d *dispatchInfo) {
 		// args: tree, method, host, path, ctx, lazy
 		okTree := subst(a[0]) == mainArgs[0]
 		okPath := subst(a[3]) == mainArgs[3]
-		okHost := sameExpr(a[2], mainArgs[2])
+		okHost := sameExpr(a[2], mainArgs[2]) || sameExpr(subst(a[2]), mainArgs[2])
 		if !okHost && site != nil {
 			// r.Host of the request parameter the helper was handed
 			b1, f1, ok1 := loadedField(a[2])
@@ -465,8 +473,8 @@ func checkAllowLoops(w *World, r *Report, d *dispatchInfo) {
 		excl := false
 		for _, f := range factsAtBlock(c.Block()) {
 			if bo, ok := f.Cond.(*ssa.BinOp); ok {
-				_, xf, okx := loadedField(bo.X)
-				_, yf, oky := loadedField(bo.Y)
+				_, xf, okx := loadedField(subst(bo.X))
+				_, yf, oky := loadedField(subst(bo.Y))
 				if okx && oky && ((xf.Name() == "key" && yf.Name() == "Method") || (xf.Name() == "Method" && yf.Name() == "key")) {
 					if (bo.Op == token.NEQ && f.Val) || (bo.Op == token.EQL && !f.Val) {
 						excl = true
